@@ -39,7 +39,7 @@
     witnesses are replayed on sqlgen. *)
 From Coq Require Import List String Bool ZArith.
 From Coq Require Import Permutation.
-From Thunder Require Import Sql.Model Sql.ModelExact Sql.BatchProofs Sql.BatchExact Sql.ModelCheck Sql.GroupOrder Sql.Matcher Sql.MatcherProofs.
+From Thunder Require Import Sql.Confine Sql.Model Sql.ModelExact Sql.BatchProofs Sql.BatchExact Sql.ModelCheck Sql.GroupOrder Sql.Matcher Sql.MatcherProofs.
 Import ListNotations.
 Open Scope string_scope.
 
@@ -236,6 +236,17 @@ Theorem c10_batch_function_through_the_matcher :
 Proof. exact batched_results_struct_both. Qed.
 Print Assumptions c10_batch_function_through_the_matcher.
 
+(** The key that names a column set (columnsKey: the sorted names joined with ";"; it keys makeBatchQuery's groups
+    and the matcher's groups alike) is injective on lists of column names (non-empty, without ";"): two different
+    column sets never share a group.  The separator is what makes it so: the plain concatenation of {namespace}
+    and of {name, space} is the same text ([ex_key_needs_the_separator]); the harness's table "tags" has such
+    column sets, and [c10_matcher_data_structures_compute_the_matcher] rests on this lemma. *)
+Theorem c10_group_key_is_injective :
+  forall l1 l2,
+    forallb name_ok l1 = true -> forallb name_ok l2 = true -> columns_key l1 = columns_key l2 -> l1 = l2.
+Proof. exact columns_key_inj. Qed.
+Print Assumptions c10_group_key_is_injective.
+
 (** matcher.remove undoes matcher.add (what a fetcher that recycles its matcher relies on; the tuple must be
     equal to itself as a map key). *)
 Theorem c10_matcher_remove_undoes_add :
@@ -352,6 +363,12 @@ Example ex_matcher :
   /\ matcher_match (matcher_of [[("id", GInt KI64 "" 10%Z)]; [("nick", GNil)]; [("id", GPtr 1 (GInt KI64 "" 10%Z))]; [("id", GInt KI "" 10%Z)]])
        (coerce_map (extract_row w_users [("id", DInt 10%Z); ("name", DStr "bob"); ("nick", DNull)])) = [0; 2; 1].
 Proof. split; vm_compute; reflexivity. Qed.
+
+Example ex_key_needs_the_separator :
+  String.concat "" ["namespace"] = String.concat "" ["name"; "space"]
+  /\ columns_key ["namespace"] <> columns_key ["name"; "space"]
+  /\ List.length (matcher_of [[("namespace", GStr "" "x")]; [("name", GStr "" "x"); ("space", GStr "" "y")]]) = 2.
+Proof. repeat split; try reflexivity. vm_compute. discriminate. Qed.
 
 Example ex_group_order :
   batch_stmt_matches "users" ["id"; "name"; "nick"]
